@@ -273,3 +273,17 @@ Definition effective_stop (o : op) (w : watch) : bool :=
 Definition all_ops (m : option Z) (rn : bool) : list op :=
   [OStart; OStop; OResume; ORestart; OSplit; OElapsed m; OLeftover rn; OExpired;
    OHasStarted; OHasStopped; OSplits; OEnter; OExit].
+
+(* does some call of the history (re)start the watch / stop or (re)start it? *)
+Fixpoint restarts_in (clk : nat -> Z) (ops : list op) (w : watch) (t : nat) : bool :=
+  match ops with
+  | [] => false
+  | o :: r => effective_restart o w || (let '((w', t'), _) := step clk o w t in restarts_in clk r w' t')
+  end.
+
+Fixpoint stops_in (clk : nat -> Z) (ops : list op) (w : watch) (t : nat) : bool :=
+  match ops with
+  | [] => false
+  | o :: r => effective_stop o w || effective_restart o w ||
+              (let '((w', t'), _) := step clk o w t in stops_in clk r w' t')
+  end.
